@@ -442,6 +442,30 @@ func equalMatrix() []*Program {
 		{"bytes(\"\")", func() *Node { return Call(Id("bytes"), Str("")) }},
 	}
 	var ps []*Program
+	// functions never compare equal - not even a function with itself, whether the two operands are one shared constant (a literal
+	// that captures nothing), one closure object reached twice, or two closures
+	one := func() *Node { return Fn(nil, false, Ret(Int(1))) }
+	for _, place := range []string{"top", "func"} {
+		body := []*Node{
+			Def("f", one()), Def("g", Id("f")), Def("eq", Bin("==", Id("f"), Id("f"))), Def("ne", Bin("!=", Id("f"), Id("f"))), Def("eq2", Bin("==", Id("f"), Id("g"))),
+			Def("inarr", Bin("==", Arr(Id("f")), Arr(Id("f")))), Def("inmap", Bin("==", Map([]string{"k"}, []*Node{Id("f")}), Map([]string{"k"}, []*Node{Id("g")}))),
+			Def("mk", Fn(nil, false, Ret(one()))), Def("eq3", Bin("==", Call(Id("mk")), Call(Id("mk")))), Def("ne3", Bin("!=", Call(Id("mk")), Call(Id("mk")))),
+			Def("mkc", Fn([]string{"n"}, false, Ret(Fn(nil, false, Ret(Id("n")))))), Def("eq4", Bin("==", Call(Id("mkc"), Int(1)), Call(Id("mkc"), Int(1)))),
+			Def("c", Call(Id("mkc"), Int(2))), Def("eq5", Bin("==", Id("c"), Id("c"))), Def("ne5", Bin("!=", Id("c"), Id("c"))),
+			Def("b1", Bin("==", Id("len"), Id("len"))), Def("cp", Id("copy")), Def("b2", Bin("==", Id("cp"), Id("copy"))), Def("b3", Bin("!=", Id("cp"), Id("cp"))),
+			Def("e1", Bin("==", Id("f"), Undef())), Def("e2", Bin("==", Id("f"), Int(0))),
+		}
+		if place == "top" {
+			ps = append(ps, cell("functions ==/!= (top level)", body...))
+		} else {
+			names := []string{"eq", "ne", "eq2", "inarr", "inmap", "eq3", "ne3", "eq4", "eq5", "ne5", "b1", "b2", "b3", "e1", "e2"}
+			var vals []*Node
+			for _, n := range names {
+				vals = append(vals, Id(n))
+			}
+			ps = append(ps, cell("functions ==/!= (in a function)", Def("run", Fn(nil, false, append(body, Ret(Arr(vals...)))...)), Def("r", Call(Id("run")))))
+		}
+	}
 	for _, a := range u {
 		for _, b := range u {
 			ps = append(ps, cell(fmt.Sprintf("%s ==/!= %s", a.name, b.name),
